@@ -107,13 +107,28 @@ def run(ctx):
             bad += [(off + i, a, s, x) for (i, a, s, x) in r["bad"]]
     nt = len({json.dumps({k: v for k, v in c.items() if k not in ("final", "log_alpha", "accept")}, sort_keys=True)
               for c in cases if "err" not in c and (c["kind"] == "mh" or len(c["order"]) >= 1)})
+    # the weight mh accepts with is regenerate's: mixture-shaped programs (an indicator site feeding a Cond
+    # whose own sites are unselected, together with the site feeding the branch argument) judged by regen_spec
+    import p_gfi
+    mcases, mbad, merrs, mcoq = p_gfi.extra_stream(ctx, "mix", "hist", 40 if ctx.tier == "quick" else 400,
+                                                   ["depth=2", "collide=0", "ops=regen", "maxops=2", "mixture=1.0"])
+    off = len(cases)
+    for mc in mcases:
+        mc["kind"] = "mixture-regenerate"
+        mc.setdefault("sel", ["mix"])
+    cases = cases + mcases
+    bad = bad + [(off + i, a, s_, x) for (i, a, s_, x) in mbad]
+    worker_errs = worker_errs + merrs
+    coq_errs = coq_errs + mcoq
     return {"cases": cases, "bad": bad, "worker_errs": worker_errs, "coq_errs": coq_errs,
             "coverage": {"evaluations": len(cases), "distinct_nontrivial": nt,
                          "rule": "mala/hmc: random Gaussian programs (2-4 normal sites, means affine in arguments and earlier sites, sigma in {1/2,1,2}, optionally "
                                  "a nested sub-call), dyadic current values, selections (address, union, path into the sub-call, all, complement, none), step sizes "
                                  "{1/4,1/2,1}, 1-3 leapfrog steps, scripted noise/momentum and accept threshold; log_alpha (read through a state-save proxy), accept bit and "
                                  "final values compared with the exact rational model (tolerance 2e-4; decisions within 1e-3 of the threshold not judged); "
-                                 "mh: seeded dyadic-categorical program, scripted threshold, accept rule and select; non-trivial = distinct case with a non-empty selection",
+                                 "mh: seeded dyadic-categorical program, scripted threshold, accept rule and select; mixture-regenerate: regenerate (the move mh proposes with, and whose weight it accepts with) on "
+                                 "mixture-shaped programs - indicator site, branch-argument site, Cond with shared-address branches - for selections of the indicator, the argument, both, with argument "
+                                 "changes that flip the branch: weight, frame and discard judged by the specification (Model/Corr.v regen_spec); non-trivial = distinct case with a non-empty selection",
                          "histogram": {"kinds": Counter(c["kind"] for c in cases),
                                        "selections": Counter(c["sel"][0] for c in cases),
                                        "accepted": Counter(str(c.get("accept")) for c in cases),
